@@ -107,6 +107,22 @@ def run(case, drv) -> Outcome:
             'L2NormSquared': L2NormSquared(weight=torch.rand(4) + 0.5, target=1.0, divide_by_n=True), 'MSE': MSE(target=torch.randn(shape_f)), 'ZeroFunctional': ZeroFunctional()}
     for k, f in funs.items():
         watch.add_module(f'fun[{k}]', f)
+    # objects that accept inputs of different shapes / ranks: the result must not depend on what the instance saw before
+    flex_ctor = {
+        'L1Norm(divide_by_n)': lambda: L1Norm(weight=2.0, target=0.5, divide_by_n=True),
+        'MSE()': lambda: MSE(target=0.25),
+        'L2NormSquared(divide_by_n)': lambda: L2NormSquared(weight=0.5, divide_by_n=True),
+        'L1NormViewAsReal(divide_by_n)': lambda: L1NormViewAsReal(weight=1.5, divide_by_n=True),
+        'FastFourierOp(dim=(-2,-1))': lambda: mrpro.operators.FastFourierOp(dim=(-2, -1)),
+        'FastFourierOp(dim=(-1,),pad)': lambda: mrpro.operators.FastFourierOp(dim=(-1,), recon_matrix=(6,), encoding_matrix=(8,)),
+        'ZeroPadOp(dim=(-1,-2))': lambda: mrpro.operators.ZeroPadOp(dim=(-1, -2), original_shape=(6, 4), padded_shape=(7, 6)),
+        'FiniteDifferenceOp(dim=(-1,))': lambda: mrpro.operators.FiniteDifferenceOp(dim=(-1,), mode='forward'),
+        'WaveletOp(dim=(-2,-1))': lambda: mrpro.operators.WaveletOp(domain_shape=(4, 6), dim=(-2, -1), wavelet_name='haar', level=1),
+    }
+    flex = {k: c() for k, c in flex_ctor.items()}
+    for k, f in flex.items():
+        watch.add_module(f'flex[{k}]', f)
+    flex_shapes = [(4, 6), (2, 4, 6), (2, 1, 4, 6), (5, 4, 6)]
     kd = make_kdata(rng)
     watch.add_data('kdata', kd)
     noise = KNoise(torch.randn(1, 2, 1, 1, 32, dtype=torch.complex64))
@@ -221,6 +237,24 @@ def run(case, drv) -> Outcome:
                 x = make_arg(list(dom if which in ('forward', 'gram') else rg), dt, 'view')
                 fn = {'forward': lambda o, x: o(x)[0], 'adjoint': lambda o, x: o.adjoint(x)[0], 'gram': lambda o, x: o.gram(x)[0], 'H': lambda o, x: o.H(x)[0]}[which]
                 calls.append((f'op[{k}].{which}(view)', fn, op, fresh, (x,)))
+    n_flex = len(flex) * 3 if case.get('sweep') else max(2, case['length'] // 5)
+    for i in range(n_flex):
+        k = list(flex)[i % len(flex)] if case.get('sweep') else rng.choice(list(flex))
+        obj = flex[k]
+        shape = rng.choice(flex_shapes)
+        x = torch.randn(*shape, dtype=torch.complex64 if 'Op' in k else rng.choice([torch.float32, torch.complex64]))
+        if 'Op' in k:
+            which = rng.choice(['forward', 'gram'])
+            fn = {'forward': lambda o, x: o(x)[0], 'gram': lambda o, x: o.adjoint(*o(x))[0]}[which]
+            calls.append((f'flex[{k}].{which}(shape {list(shape)})', fn, obj, flex_ctor[k], (x,)))
+        else:
+            which = rng.choice(['prox', 'prox_convex_conj', 'forward'])
+            if which == 'forward':
+                calls.append((f'flex[{k}].forward(shape {list(shape)})', (lambda o, x: o(x)[0]), obj, flex_ctor[k], (x,)))
+            else:
+                calls.append((f'flex[{k}].{which}(shape {list(shape)})', (lambda o, x, s, w=which: getattr(o, w)(x, s)[0]), obj, flex_ctor[k], (x, 0.5)))
+    if not case.get('sweep'):
+        rng.shuffle(calls)
     # every call is repeated once more at a random later position
     calls = calls + rng.sample(calls, max(1, len(calls) // 3))
     for name, fn, obj, fresh, args in calls:
